@@ -99,6 +99,9 @@ func c11Batches(r *Rng, n int, partition string, T int) []int {
 // id layout: producer p owns ids p, p+P, p+2P, ... so single-producer order is id order
 func c11Tri(id int) *sdf.Triangle3 {
 	f := float64(id)
+	if id%97 == 3 { // thin but valid: two corners differ in float64 and coincide after float32 rounding
+		return &sdf.Triangle3{{X: f}, {X: f, Y: 1, Z: 5}, {X: f, Y: 1 + 1e-9, Z: 5 + 2e-9}}
+	}
 	return &sdf.Triangle3{{X: f}, {X: f, Y: 1}, {X: f, Z: 1}}
 }
 func c11Line(id int) *sdf.Line2 {
@@ -259,14 +262,14 @@ func c11ReadSVG(path string) ([]int, error) {
 func shardC11(c *Ctx, shard, nshards int) {
 	dir := scratch()
 	defer cleanupScratch()
-	sinks := []string{"ToTriangles", "Triangle3Buffer", "Line2Buffer", "ToSTL", "To3MF", "ToDXF", "ToSVG"}
+	sinks := []string{"ToTriangles", "Triangle3Buffer", "Line2Buffer", "Triangle3Buffer-queued", "Line2Buffer-queued", "ToSTL", "To3MF", "ToDXF", "ToSVG"}
 	partitions := []string{"singles", "one", "empties", "straddle", "random", "multipart"}
 	caseNo := 0
 	shape3, _ := sdf.Sphere3D(1)
 	shape2, _ := sdf.Circle2D(1)
 	for _, sink := range sinks {
 		T := 256
-		if sink == "Line2Buffer" || sink == "ToDXF" || sink == "ToSVG" {
+		if strings.HasPrefix(sink, "Line2Buffer") || sink == "ToDXF" || sink == "ToSVG" {
 			T = 128
 		}
 		counts := []int{0, 1, 2, T - 1, T, T + 1, 2*T - 1, 2 * T, 2*T + 1, 1000, 5000}
@@ -361,6 +364,26 @@ func c11RunCase(c *Ctx, plan *c11Plan, r *Rng, T int, dir string, shape3 sdf.SDF
 		(&c11R2{plan, r}).Render(shape2, sdf.NewLine2Buffer(ch))
 		close(ch)
 		<-done
+	case "Triangle3Buffer-queued": // a buffered caller-owned channel drained only after the renderer has returned
+		ch := make(chan []*sdf.Triangle3, 1<<16)
+		(&c11R3{plan, r}).Render(shape3, sdf.NewTriangle3Buffer(ch))
+		close(ch)
+		for ts := range ch {
+			batchSizes = append(batchSizes, len(ts))
+			for _, t := range ts {
+				got = append(got, int(t[0].X))
+			}
+		}
+	case "Line2Buffer-queued":
+		ch := make(chan []*sdf.Line2, 1<<16)
+		(&c11R2{plan, r}).Render(shape2, sdf.NewLine2Buffer(ch))
+		close(ch)
+		for ls := range ch {
+			batchSizes = append(batchSizes, len(ls))
+			for _, l := range ls {
+				got = append(got, int(l[0].X))
+			}
+		}
 	case "ToSTL":
 		path += ".stl"
 		render.ToSTL(shape3, path, &c11R3{plan, r})
